@@ -68,8 +68,6 @@ template <typename... TArgs>
 HFSM2_CONSTEXPR(14)
 typename DynamicArrayT<T, NC_>::Index
 DynamicArrayT<T, NC_>::emplace(const TArgs&... args) noexcept {
-	HFSM2_ASSERT(_count < CAPACITY);
-
 	if (_count >= CAPACITY)
 		return CAPACITY;
 
@@ -85,8 +83,6 @@ template <typename... TArgs>
 HFSM2_CONSTEXPR(14)
 typename DynamicArrayT<T, NC_>::Index
 DynamicArrayT<T, NC_>::emplace(TArgs&&... args) noexcept {
-	HFSM2_ASSERT(_count < CAPACITY);
-
 	if (_count >= CAPACITY)
 		return CAPACITY;
 
